@@ -64,6 +64,9 @@ def _build():
             quick = True
             _add('upd[%s|w=%s|set=%d|%s]' % (k, w, setkw, qh.shape_name(shape)), Q(update=upd, where=WH[w], update_set=setkw), shape, quick=quick)
         n += 1
+    for k in ('a1=a2', 'NU', 'a3=lit'):
+        for w in (None, 'nf2', 'or'):
+            _add('upd[%s|w=%s|emptyrow]' % (k, w), Q(update=U[k], where=WH[w]), ['so', '', 'sss', ''], quick=True)
     for k, upd in UH.items():
         for j, w in enumerate((None, 'odd')):
             shape = [['oss', 'sso'], ['sso', 'os', 'sss']][j]
